@@ -248,7 +248,7 @@ fn compound_spec() -> BoxedStrategy<CompoundSpec> {
 }
 
 pub const SYS_POS: &[&str] = &[POS_NUM, POS_NOUN, POS_SYM, POS_VERB, POS_PART, POS_PROPER];
-pub const USER_POS: &[&str] = &[POS_NOUN, POS_NUM, POS_USER1, POS_USER2, POS_USER3, POS_PLUGIN];
+pub const USER_POS: &[&str] = &[POS_NOUN, POS_NUM, POS_USER1, POS_USER2, POS_USER3, POS_PLUGIN, POS_BLANKS, POS_BLANKS2];
 
 fn mk_ref(style: u8, user: bool, target_user: bool, n: u32, e: &Entry) -> WRef {
     if style == 2 {
@@ -282,10 +282,13 @@ fn build_entries(
     let mut out: Vec<Entry> = Vec::new();
     // ids are kept below min(nl, nr): on non-square matrices the ids in between are the F9 class
     let (nl, nr) = (nl.min(nr), nl.min(nr));
+    // the three parts of speech the plugins ask for are carried by the first three rows, in any order (the
+    // numeral part of speech is not always id 0)
+    let rot = bases.first().map(|b| b.pos as usize % 3).unwrap_or(0);
     for (i, b) in bases.iter().enumerate() {
         let mut pos_i = ix(b.pos, pos_pool.len());
         if p.anchor_pos && !user && i < 3 {
-            pos_i = i;
+            pos_i = (i + rot) % 3;
         }
         let pos = pos_from_str(pos_pool[pos_i]);
         let mut e = Entry::simple(&b.key, ix(b.left, nl as usize) as i16, ix(b.right, nr as usize) as i16, b.cost, &pos);
